@@ -41,7 +41,12 @@ CHECKS = {
              "chain-restored and sticky-code for every program within the token budget (every nesting shape incl. blocks "
              "in handler and finaliser position). Every complete program of the model is replayed through the REAL macros "
              "(harness/err_vm.c) and seeded random longer/deeper token streams are executed and validated by driving the "
-             "model's own actions with the recorded tokens (trace/ErrTrace): observation histories must coincide.",
+             "model's own actions with the recorded tokens (trace/ErrTrace): observation histories must coincide. Context half: model/Ctx (contexts, threads, multi-step selections, derived-"
+             "constant groups tagged with their source parameter) is model-checked for NoStaleState and Independence; the real "
+             "library is driven through every ordered pair and seeded longer sequences of the selectable parameter sets, "
+             "context switches with core_set and concurrent threads (MULTI=PTHREAD build), running after each selection a "
+             "probe workload that consults every derived-constant group; trace/CtxTrace requires each probe to equal that "
+             "of a freshly initialised library (separate process) with the same last selection.",
         ref="§4 C19, §4a-C",
         note=_NOTE,
         technique="TLC model checking of the macro state machine + replay of all TLC-generated programs into the real macros + trace validation"),
